@@ -73,6 +73,14 @@ def factor_grid(t, tier):
         for c in (1, 2, 3, 7):
             s.add(red(L, c))
             s.add(red(c, L))
+    # both numerator and denominator near the limits of T / of the promoted type (every branch of the
+    # Max/MinNonOverflowingValue case analysis has a "large N, large D" corner)
+    corner = sorted({tm, tm - 1, tm // 2 + 1, tm // 2 + 2, isqrt(pm), isqrt(pm) + 1, 2 ** (bits - 1) + 1, pm, pm - 1,
+                     (tm * 10) // 11, 60000 if bits == 16 else tm - 5, 60001 if bits == 16 else tm - 4})
+    for a in corner:
+        for b in corner:
+            if a != b and 2 <= a < 2 ** 64 and 2 <= b < 2 ** 64:
+                s.add(red(a, b))
     for p in BIG_PRIMES:
         for c in (1, 3):
             s.add(red(p, c))
